@@ -8,6 +8,7 @@
  */
 #ifndef XV_FRAMING_H
 #define XV_FRAMING_H
+#include "contracts/begin.h"
 
 #include "contracts/lower.h"
 
@@ -41,10 +42,16 @@
 /* message accounting on the send side: accepted - handed down == frame pending */
 #define TX_CNT(s) (CN(s, from_app_msgs) - CN(s, to_lower_msgs) == (SB(s).wire_len != 0 ? 1 : 0) && \
                    CN(s, from_app_bytes) - CN(s, to_lower_bytes) == (SB(s).wire_len != 0 ? (int64_t)SB(s).wire_len - 4 : 0))
-#define CNT_RANGE(s) (CN(s, to_app_bytes) >= 0 && CN(s, to_app_bytes) < (1L << 62) && CN(s, from_app_bytes) >= 0 && CN(s, from_app_bytes) < (1L << 62) && \
-                      CN(s, to_lower_bytes) >= 0 && CN(s, to_lower_bytes) < (1L << 62) && CN(s, from_lower_bytes) >= 0 && CN(s, from_lower_bytes) < (1L << 62) && \
-                      CN(s, to_app_msgs) >= 0 && CN(s, to_app_msgs) < (1L << 62) && CN(s, from_app_msgs) >= 0 && CN(s, from_app_msgs) < (1L << 62) && \
-                      CN(s, to_lower_msgs) >= 0 && CN(s, to_lower_msgs) < (1L << 62) && CN(s, from_lower_msgs) >= 0 && CN(s, from_lower_msgs) < (1L << 62))
+/* counters are assumed < 2^61 on entry of a public op (a connection cannot move 2 EiB); helper functions called
+ * in mid-op accept the slack an op can add (XV_SLACK) */
+#define XV_SLACK (1L << 24)
+#define CNT_LIM(s, lim) (CN(s, to_app_bytes) >= 0 && CN(s, to_app_bytes) < (lim) && CN(s, from_app_bytes) >= 0 && CN(s, from_app_bytes) < (lim) && \
+                      CN(s, to_lower_bytes) >= 0 && CN(s, to_lower_bytes) < (lim) && CN(s, from_lower_bytes) >= 0 && CN(s, from_lower_bytes) < (lim) && \
+                      CN(s, to_app_msgs) >= 0 && CN(s, to_app_msgs) < (lim) && CN(s, from_app_msgs) >= 0 && CN(s, from_app_msgs) < (lim) && \
+                      CN(s, to_lower_msgs) >= 0 && CN(s, to_lower_msgs) < (lim) && CN(s, from_lower_msgs) >= 0 && CN(s, from_lower_msgs) < (lim))
+#define CNT_RANGE(s) CNT_LIM(s, 1L << 61)                    /* entry of a public op */
+#define CNT_RANGE_IN(s) CNT_LIM(s, (1L << 61) + XV_SLACK)    /* entry of a helper    */
+#define CNT_RANGE_OUT(s) CNT_LIM(s, (1L << 61) + 2 * XV_SLACK) /* any exit            */
 /* receive side: between calls the buffered frame is incomplete and, once its
  * header is complete, the announced length is legal */
 #define RX_SHAPE(s) (MBUF_SHAPE(RB(s)) && \
@@ -52,9 +59,15 @@
                                                     RB(s).wire_len - 4 < XHDR(RB(s).wire_data))))
 /* content link: receive_mbuf holds exactly the last wire_len stream bytes */
 #define RX_START(s) (xv_rx_off - (long)RB(s).wire_len)
-#define RX_LINK(s) ((xv_k >= RX_START(s) && xv_k < xv_rx_off) ==> XV_U8(RB(s).wire_data)[xv_k - RX_START(s)] == xv_rx_k)
+#define RX_LINK1(s, pos, val) (((pos) >= RX_START(s) && (pos) < xv_rx_off) ==> XV_U8(RB(s).wire_data)[(pos) - RX_START(s)] == (val))
+#define RX_LINK(s) RX_LINK1(s, xv_k, xv_rx_k)
+/* the offset the ut_realloc model preserves is the buffer offset of the tracked stream position */
+#define RX_KEEP(s) ((xv_k >= RX_START(s) && xv_k < RX_START(s) + (long)MBUF_WIRE_MAX) ==> (long)xv_keep == xv_k - RX_START(s))
 #define RX_CNT(s) (CN(s, from_lower_msgs) == CN(s, to_app_msgs) && CN(s, from_lower_bytes) >= CN(s, to_app_bytes))
-#define GHOST_RANGE (xv_tx_off >= 0 && xv_tx_off < XV_OFF_MAX && xv_rx_off >= 0 && xv_rx_off < XV_OFF_MAX && xv_k >= 0 && xv_k < 2 * XV_OFF_MAX)
+#define GHOST_LIM(lim) (xv_tx_off >= 0 && xv_tx_off < (lim) && xv_rx_off >= 0 && xv_rx_off < (lim) && xv_k >= 0 && xv_k < 2 * XV_OFF_MAX)
+#define GHOST_RANGE GHOST_LIM(XV_OFF_MAX)
+#define GHOST_RANGE_IN GHOST_LIM(XV_OFF_MAX + XV_SLACK)
+#define GHOST_RANGE_OUT GHOST_LIM(XV_OFF_MAX + 2 * XV_SLACK)
 
 /* ---- the layer below, ASSUMED here, enforced in units btcp / btls */
 int xcm_tp_socket_send(struct xcm_socket *__restrict s, const void *__restrict buf, size_t len)
@@ -75,9 +88,12 @@ __CPROVER_ensures(LOWER_DEAD_MONOTONE)
 #define TFS_OLD_REM ((long)__CPROVER_old(SB(s).wire_len) - (long)__CPROVER_old(SENT(s)))
 static int try_finish_send(struct xcm_socket *s)
 __CPROVER_requires(__CPROVER_is_fresh(s, XF_SIZE))
-__CPROVER_requires(MBUF_SHAPE(SB(s)) && MBUF_MEM(SB(s)) && TX_SHAPE(s) && CNT_RANGE(s) && GHOST_RANGE)
+__CPROVER_requires(MBUF_SHAPE(SB(s)) && MBUF_MEM(SB(s)) && TX_SHAPE(s) && CNT_RANGE_IN(s) && GHOST_RANGE_IN)
 __CPROVER_assigns(SENT(s), SB(s).wire_len, CN(s, to_lower_bytes), CN(s, to_lower_msgs), LOWER_SEND_ASSIGNS)
 __CPROVER_ensures(__CPROVER_return_value == 0 || __CPROVER_return_value == -1)
+__CPROVER_ensures(xv_tx_off >= __CPROVER_old(xv_tx_off) && xv_tx_off <= __CPROVER_old(xv_tx_off) + (long)MBUF_WIRE_MAX)
+__CPROVER_ensures(CN(s, to_lower_msgs) >= __CPROVER_old(CN(s, to_lower_msgs)) && CN(s, to_lower_msgs) <= __CPROVER_old(CN(s, to_lower_msgs)) + 1 && \
+                  CN(s, to_lower_bytes) >= __CPROVER_old(CN(s, to_lower_bytes)) && CN(s, to_lower_bytes) <= __CPROVER_old(CN(s, to_lower_bytes)) + MBUF_MSG_MAX)
 __CPROVER_ensures(TX_SHAPE(s) && LOWER_DEAD_MONOTONE)
 /* PO[C01] try_finish_send.flushed: success <=> nothing pending; exactly the remaining bytes went down */
 __CPROVER_ensures(__CPROVER_return_value == 0 ==> (SB(s).wire_len == 0 && xv_tx_off == __CPROVER_old(xv_tx_off) + TFS_OLD_REM))
@@ -96,4 +112,275 @@ __CPROVER_ensures((__CPROVER_return_value == 0 && __CPROVER_old(SB(s).wire_len) 
         : (CN(s, to_lower_msgs) == __CPROVER_old(CN(s, to_lower_msgs)) && CN(s, to_lower_bytes) == __CPROVER_old(CN(s, to_lower_bytes))))
 ;
 
+/* ---- xcm_tp_socket_finish / update of the layer below (ASSUMED; enforced in unit btcp) */
+int xcm_tp_socket_finish(struct xcm_socket *s)
+__CPROVER_requires(1)
+__CPROVER_assigns(xv_errno, xv_lower_dead)
+__CPROVER_ensures((__CPROVER_return_value == 0 && !xv_lower_dead && !__CPROVER_old(xv_lower_dead) && xv_errno == __CPROVER_old(xv_errno)) || \
+                  (__CPROVER_return_value == -1 && xv_errno > 0 && (xv_errno != EAGAIN ==> xv_lower_dead)))
+__CPROVER_ensures(LOWER_DEAD_MONOTONE)
+;
+/* ghost: condition the lower socket had when its update() ran last */
+int xv_lower_updated_with;
+_Bool xv_lower_updated;
+void xcm_tp_socket_update(struct xcm_socket *s)
+__CPROVER_requires(__CPROVER_r_ok(s, sizeof(struct xcm_socket)))
+__CPROVER_assigns(xv_lower_updated_with, xv_lower_updated)
+__CPROVER_ensures(xv_lower_updated && xv_lower_updated_with == s->condition)
+;
+
+/* ---- tcp_send / tls_send */
+#define XF_WHOLE_TX(s) (MBUF_SHAPE(SB(s)) && MBUF_MEM(SB(s)) && TX_SHAPE(s) && TX_CNT(s))
+#define TS_F (__CPROVER_old(xv_tx_off) + TFS_OLD_REM)                     /* stream offset at which a new frame starts */
+#define TS_BUFSZ(len) ((len) == 0 || (len) > MBUF_MSG_MAX ? 1 : (len))
+static int XFN(send)(struct xcm_socket *__restrict s, const void *__restrict buf, size_t len)
+__CPROVER_requires(__CPROVER_is_fresh(s, XF_SIZE))
+__CPROVER_requires(CNT_RANGE(s) && GHOST_RANGE && XF_WHOLE_TX(s))
+__CPROVER_requires(__CPROVER_is_fresh(buf, TS_BUFSZ(len)))
+__CPROVER_requires(XF(s)->conn.bad ==> XF(s)->conn.badness_reason > 0)
+/* ghost constants naming entry values: byte xv_j of the pending frame, and the pending byte that will be stream byte xv_k */
+__CPROVER_requires((xv_j >= 0 && xv_j < (long)SB(s).wire_len) ==> XV_U8(SB(s).wire_data)[xv_j] == xv_g_sb_j)
+__CPROVER_requires((xv_k >= xv_tx_off && xv_k < xv_tx_off + (long)SB(s).wire_len - SENT(s)) ==> XV_U8(SB(s).wire_data)[SENT(s) + (xv_k - xv_tx_off)] == xv_g_sb_k)
+__CPROVER_assigns(SENT(s), SB(s).wire_len, SB(s).wire_capacity, SB(s).wire_data, \
+                  CN(s, to_lower_bytes), CN(s, to_lower_msgs), CN(s, from_app_bytes), CN(s, from_app_msgs), LOWER_SEND_ASSIGNS)
+__CPROVER_assigns(SB(s).wire_capacity > 0: __CPROVER_object_whole(SB(s).wire_data))
+__CPROVER_frees(SB(s).wire_data)
+__CPROVER_ensures(__CPROVER_return_value == 0 || (__CPROVER_return_value == -1 && xv_errno > 0))
+__CPROVER_ensures(xv_tx_off >= __CPROVER_old(xv_tx_off) && xv_tx_off <= __CPROVER_old(xv_tx_off) + 2 * (long)MBUF_WIRE_MAX)
+__CPROVER_ensures(CNT_RANGE_OUT(s) && MBUF_SHAPE(SB(s)) && TX_SHAPE(s) && TX_CNT(s) && LOWER_DEAD_MONOTONE)
+/* PO[C03] send.size_checked_first: 0 and oversized lengths are refused with EINVAL/EMSGSIZE */
+__CPROVER_ensures(len == 0 ==> (__CPROVER_return_value == -1 && xv_errno == EINVAL))
+__CPROVER_ensures(len > MBUF_MSG_MAX ==> (__CPROVER_return_value == -1 && xv_errno == EMSGSIZE))
+/* PO[C06] send.bad_sticky: a connection marked bad refuses with the stored errno */
+__CPROVER_ensures((len >= 1 && len <= MBUF_MSG_MAX && __CPROVER_old(XF(s)->conn.bad)) ==> (__CPROVER_return_value == -1 && xv_errno == __CPROVER_old(XF(s)->conn.badness_reason)))
+/* PO[C03,C17] send.fail_no_trace: -1 while the lower connection is alive (EAGAIN, EMSGSIZE, EINVAL, bad):
+ * counters, the pending frame (identity and every byte) are as before; only flush progress of the
+ * PREVIOUS frame (which xcm_finish would make as well) is visible */
+__CPROVER_ensures((__CPROVER_return_value == -1 && !xv_lower_dead) ==> ( \
+        CN(s, from_app_msgs) == __CPROVER_old(CN(s, from_app_msgs)) && CN(s, from_app_bytes) == __CPROVER_old(CN(s, from_app_bytes)) && \
+        SB(s).wire_len == __CPROVER_old(SB(s).wire_len) && SB(s).wire_data == __CPROVER_old(SB(s).wire_data) && \
+        SB(s).wire_capacity == __CPROVER_old(SB(s).wire_capacity) && \
+        SENT(s) >= __CPROVER_old(SENT(s)) && xv_tx_off - SENT(s) == __CPROVER_old(xv_tx_off) - __CPROVER_old(SENT(s)) && \
+        ((xv_j >= 0 && xv_j < (long)SB(s).wire_len) ==> XV_U8(SB(s).wire_data)[xv_j] == xv_g_sb_j)))
+/* PO[C03] send.fail_offered_bytes_not_sent: -1 => no byte went down beyond the previously accepted frame
+ * (so nothing of the refused message is ever on the wire) */
+__CPROVER_ensures(__CPROVER_return_value == -1 ==> (xv_tx_off <= TS_F || CN(s, from_app_msgs) == __CPROVER_old(CN(s, from_app_msgs)) + 1))
+__CPROVER_ensures((__CPROVER_return_value == -1 && CN(s, from_app_msgs) != __CPROVER_old(CN(s, from_app_msgs))) ==> xv_lower_dead)
+/* PO[C01,C03] send.once: success => the frame BE32(len).buf occupies stream offsets [F, F+4+len), F = end of the
+ * previous frame: no gap, no overlap, nothing reordered; what is not yet down sits in send_mbuf verbatim */
+__CPROVER_ensures(__CPROVER_return_value == 0 ==> ( \
+        xv_tx_off >= TS_F && xv_tx_off <= TS_F + 4 + (long)len && \
+        (xv_tx_off == TS_F + 4 + (long)len ? SB(s).wire_len == 0 \
+                                          : (SB(s).wire_len == 4 + len && (long)SENT(s) == xv_tx_off - TS_F))))
+__CPROVER_ensures((__CPROVER_return_value == 0 && xv_k >= TS_F && xv_k < TS_F + 4 + (long)len) ==> ( \
+        xv_k < xv_tx_off ? (xv_tx_k_set && xv_tx_k == FRAME_BYTE(len, buf, xv_k - TS_F)) \
+                         : XV_U8(SB(s).wire_data)[xv_k - TS_F] == FRAME_BYTE(len, buf, xv_k - TS_F)))
+/* PO[C01] send.prev_frame_first: the bytes of the previously pending frame went down before the new frame, unaltered */
+__CPROVER_ensures((__CPROVER_return_value == 0 && xv_k >= __CPROVER_old(xv_tx_off) && xv_k < TS_F) ==> ( \
+        xv_tx_k_set && xv_tx_k == xv_g_sb_k))
+__CPROVER_ensures((xv_k < __CPROVER_old(xv_tx_off) || xv_k >= xv_tx_off) ==> (xv_tx_k == __CPROVER_old(xv_tx_k) && xv_tx_k_set == __CPROVER_old(xv_tx_k_set)))
+/* PO[C17] send.cnt: from_app counts exactly the accepted message */
+__CPROVER_ensures(__CPROVER_return_value == 0 ==> (CN(s, from_app_msgs) == __CPROVER_old(CN(s, from_app_msgs)) + 1 && \
+                                                    CN(s, from_app_bytes) == __CPROVER_old(CN(s, from_app_bytes)) + (int64_t)len))
+__CPROVER_ensures(CN(s, to_lower_msgs) >= __CPROVER_old(CN(s, to_lower_msgs)) && CN(s, to_lower_bytes) >= __CPROVER_old(CN(s, to_lower_bytes)) && \
+                  CN(s, from_app_msgs) >= __CPROVER_old(CN(s, from_app_msgs)) && CN(s, from_app_bytes) >= __CPROVER_old(CN(s, from_app_bytes)))
+;
+
+/* ---- receive side -------------------------------------------------------------------------------- */
+#define RX_MEM(s) (MBUF_SHAPE(RB(s)) && MBUF_MEM(RB(s)) && RX_NR(s) && RX_KEEP(s))
+#define XF_WHOLE_RX(s) (RX_MEM(s) && RX_SHAPE(s) && RX_LINK(s) && RX_CNT(s))
+#define RX_GROWTH(s) ((long)RB(s).wire_len - (long)__CPROVER_old(RB(s).wire_len) == xv_rx_off - __CPROVER_old(xv_rx_off))
+/* XV_NR ("no realloc") instantiates the receive-side contracts for the states in which receive_mbuf already has its
+ * maximum capacity, so that no reallocation can happen and the buffer pointer is not in the frame.  DFCC cannot replace a
+ * call by a contract that says "the buffer is the old one or a freshly realloc'ed one" (is_fresh is not freshness-
+ * agnostic, assumed w_ok did not constrain the havocked pointer), so the jobs that cut tcp_receive at buffer_msg are
+ * run in this instantiation; the general instantiation is enforced on buffer_receive/_hdr/_payload/_msg themselves. */
+#ifdef XV_NR
+#define RX_NR(s) (RB(s).wire_capacity == MBUF_WIRE_MAX)
+#define RX_ASSIGNS(s) RB(s).wire_len, xv_errno, xv_rx_off, xv_rx_eof, xv_lower_dead
+#define RX_ASSIGNS_MEM(s) __CPROVER_assigns(__CPROVER_object_whole(RB(s).wire_data))
+#else
+#define RX_NR(s) 1
+#define RX_ASSIGNS(s) RB(s).wire_len, RB(s).wire_capacity, RB(s).wire_data, xv_errno, xv_rx_off, xv_rx_eof, xv_lower_dead
+#define RX_ASSIGNS_MEM(s) __CPROVER_assigns(RB(s).wire_capacity > 0: __CPROVER_object_whole(RB(s).wire_data)) __CPROVER_frees(RB(s).wire_data)
+#endif
+#define HDR_OK(h) ((h) >= 1 && (h) <= MBUF_MSG_MAX)
+#define RX_HDR(s) XHDR(RB(s).wire_data)
+/* a complete header is never rewritten (also across the realloc) */
+#define RX_B(s, i) (XV_U8(RB(s).wire_data)[i])
+#define RX_HDR_OLD(s) ((((uint32_t)__CPROVER_old(RX_B(s, 0))) << 24) | (((uint32_t)__CPROVER_old(RX_B(s, 1))) << 16) | \
+                       (((uint32_t)__CPROVER_old(RX_B(s, 2))) << 8) | ((uint32_t)__CPROVER_old(RX_B(s, 3))))
+#define RX_HDR_KEPT(s) (__CPROVER_old(RB(s).wire_len) >= 4 ==> RX_HDR(s) == RX_HDR_OLD(s))
+
+/* buffer_receive(s, len): append up to len further stream bytes to receive_mbuf */
+static int buffer_receive(struct xcm_socket *s, int len)
+__CPROVER_requires(__CPROVER_is_fresh(s, XF_SIZE))
+__CPROVER_requires(GHOST_RANGE_IN && RX_MEM(s) && RX_LINK(s))
+__CPROVER_requires(len >= 1 && (long)RB(s).wire_len + (long)len <= (long)MBUF_WIRE_MAX)
+__CPROVER_assigns(RX_ASSIGNS(s))
+RX_ASSIGNS_MEM(s)
+__CPROVER_ensures(__CPROVER_return_value >= -1 && __CPROVER_return_value <= 1)
+__CPROVER_ensures(MBUF_SHAPE(RB(s)) && LOWER_DEAD_MONOTONE && (__CPROVER_old(xv_rx_eof) ==> xv_rx_eof))
+__CPROVER_ensures(xv_rx_off >= __CPROVER_old(xv_rx_off) && xv_rx_off <= __CPROVER_old(xv_rx_off) + (long)len)
+/* PO[C01,C07] buffer_receive.appends: the buffer grows by exactly the bytes the lower layer delivered, in order;
+ * what was buffered before is untouched (also across the realloc) */
+__CPROVER_ensures(RX_GROWTH(s))
+__CPROVER_ensures(RX_LINK(s) && RX_HDR_KEPT(s))
+/* PO[C01] buffer_receive.rv: 1 <=> all len bytes arrived; 0 <=> end of stream; -1/EAGAIN on a short read */
+__CPROVER_ensures(__CPROVER_return_value == 1 ==> RB(s).wire_len == __CPROVER_old(RB(s).wire_len) + (uint32_t)len)
+__CPROVER_ensures(__CPROVER_return_value == 0 ==> (xv_rx_eof && RB(s).wire_len == __CPROVER_old(RB(s).wire_len)))
+__CPROVER_ensures(__CPROVER_return_value == -1 ==> (xv_errno > 0 && RB(s).wire_len < __CPROVER_old(RB(s).wire_len) + (uint32_t)len && \
+                                                     (xv_errno != EAGAIN ==> (xv_lower_dead && RB(s).wire_len == __CPROVER_old(RB(s).wire_len)))))
+;
+
+/* buffer_hdr(s): complete the 4-byte header */
+static int buffer_hdr(struct xcm_socket *s)
+__CPROVER_requires(__CPROVER_is_fresh(s, XF_SIZE))
+__CPROVER_requires(GHOST_RANGE_IN && RX_MEM(s) && RX_LINK(s))
+__CPROVER_assigns(RX_ASSIGNS(s))
+RX_ASSIGNS_MEM(s)
+__CPROVER_ensures(__CPROVER_return_value >= -1 && __CPROVER_return_value <= 1)
+__CPROVER_ensures(MBUF_SHAPE(RB(s)) && LOWER_DEAD_MONOTONE && (__CPROVER_old(xv_rx_eof) ==> xv_rx_eof))
+__CPROVER_ensures(xv_rx_off >= __CPROVER_old(xv_rx_off) && xv_rx_off <= __CPROVER_old(xv_rx_off) + 4)
+__CPROVER_ensures(RX_GROWTH(s))
+__CPROVER_ensures(RX_LINK(s) && RX_HDR_KEPT(s))
+/* PO[C01,C07] buffer_hdr.rv: 1 <=> the header is complete (and nothing beyond it was read on its behalf) */
+__CPROVER_ensures(__CPROVER_return_value == 1 ==> (__CPROVER_old(RB(s).wire_len) >= 4 ? RB(s).wire_len == __CPROVER_old(RB(s).wire_len) : RB(s).wire_len == 4))
+__CPROVER_ensures(__CPROVER_return_value == 0 ==> (xv_rx_eof && RB(s).wire_len == __CPROVER_old(RB(s).wire_len)))
+__CPROVER_ensures(__CPROVER_return_value == -1 ==> (xv_errno > 0 && RB(s).wire_len < 4 && \
+                                                     (xv_errno != EAGAIN ==> (xv_lower_dead && RB(s).wire_len == __CPROVER_old(RB(s).wire_len)))))
+;
+
+/* buffer_payload(s): header complete; validate it, then complete the payload */
+static int buffer_payload(struct xcm_socket *s)
+__CPROVER_requires(__CPROVER_is_fresh(s, XF_SIZE))
+__CPROVER_requires(CNT_RANGE_IN(s) && GHOST_RANGE_IN && RX_MEM(s) && RX_LINK(s))
+__CPROVER_requires(RB(s).wire_len >= 4 && !XF(s)->conn.bad && (HDR_OK(XHDR(RB(s).wire_data)) ? RB(s).wire_len - 4 < XHDR(RB(s).wire_data) : RB(s).wire_len == 4))
+__CPROVER_assigns(RX_ASSIGNS(s), XF(s)->conn.bad, XF(s)->conn.badness_reason, CN(s, from_lower_bytes), CN(s, from_lower_msgs))
+RX_ASSIGNS_MEM(s)
+__CPROVER_ensures(__CPROVER_return_value >= -1 && __CPROVER_return_value <= 1)
+__CPROVER_ensures(MBUF_SHAPE(RB(s)) && LOWER_DEAD_MONOTONE && (__CPROVER_old(xv_rx_eof) ==> xv_rx_eof))
+__CPROVER_ensures(xv_rx_off >= __CPROVER_old(xv_rx_off) && xv_rx_off <= __CPROVER_old(xv_rx_off) + (long)MBUF_MSG_MAX)
+__CPROVER_ensures(RX_GROWTH(s))
+__CPROVER_ensures(RX_LINK(s) && RB(s).wire_len >= 4 && RX_HDR_KEPT(s))
+/* PO[C07] buffer_payload.illegal_length: announced length 0 or > max => EPROTO, connection marked bad, nothing read */
+__CPROVER_ensures(!HDR_OK(RX_HDR(s)) ==> (__CPROVER_return_value == -1 && xv_errno == EPROTO && XF(s)->conn.bad && XF(s)->conn.badness_reason == EPROTO && \
+                                          xv_rx_off == __CPROVER_old(xv_rx_off)))
+__CPROVER_ensures(HDR_OK(RX_HDR(s)) ==> (!XF(s)->conn.bad && RB(s).wire_len - 4 <= RX_HDR(s)))
+/* PO[C01,C07] buffer_payload.rv: 1 <=> the frame is complete, exactly (nothing of the next frame is read) */
+__CPROVER_ensures(__CPROVER_return_value == 1 ==> (HDR_OK(RX_HDR(s)) && RB(s).wire_len == 4 + RX_HDR(s)))
+__CPROVER_ensures(__CPROVER_return_value == 0 ==> (xv_rx_eof && RB(s).wire_len == __CPROVER_old(RB(s).wire_len)))
+__CPROVER_ensures((__CPROVER_return_value == -1 && HDR_OK(RX_HDR(s))) ==> (xv_errno > 0 && RB(s).wire_len - 4 < RX_HDR(s) && \
+                                                     (xv_errno != EAGAIN ==> (xv_lower_dead && RB(s).wire_len == __CPROVER_old(RB(s).wire_len)))))
+/* PO[C17] buffer_payload.cnt: from_lower counts a frame exactly when it is complete */
+__CPROVER_ensures(__CPROVER_return_value == 1 \
+        ? (CN(s, from_lower_msgs) == __CPROVER_old(CN(s, from_lower_msgs)) + 1 && CN(s, from_lower_bytes) == __CPROVER_old(CN(s, from_lower_bytes)) + (int64_t)RB(s).wire_len - 4) \
+        : (CN(s, from_lower_msgs) == __CPROVER_old(CN(s, from_lower_msgs)) && CN(s, from_lower_bytes) == __CPROVER_old(CN(s, from_lower_bytes))))
+;
+
+/* buffer_msg(s): header then payload */
+static int buffer_msg(struct xcm_socket *s)
+__CPROVER_requires(__CPROVER_is_fresh(s, XF_SIZE))
+__CPROVER_requires(CNT_RANGE_IN(s) && GHOST_RANGE_IN && RX_MEM(s) && RX_SHAPE(s) && RX_LINK(s) && !XF(s)->conn.bad)
+__CPROVER_assigns(RX_ASSIGNS(s), XF(s)->conn.bad, XF(s)->conn.badness_reason, CN(s, from_lower_bytes), CN(s, from_lower_msgs))
+RX_ASSIGNS_MEM(s)
+__CPROVER_ensures(__CPROVER_return_value >= -1 && __CPROVER_return_value <= 1)
+__CPROVER_ensures(MBUF_SHAPE(RB(s)) && LOWER_DEAD_MONOTONE && (__CPROVER_old(xv_rx_eof) ==> xv_rx_eof))
+__CPROVER_ensures(xv_rx_off >= __CPROVER_old(xv_rx_off) && xv_rx_off <= __CPROVER_old(xv_rx_off) + (long)MBUF_WIRE_MAX)
+__CPROVER_ensures(RX_GROWTH(s))
+__CPROVER_ensures(RX_LINK(s) && RX_HDR_KEPT(s))
+/* PO[C07] buffer_msg.illegal_length */
+__CPROVER_ensures(XF(s)->conn.bad ==> (__CPROVER_return_value == -1 && xv_errno == EPROTO && XF(s)->conn.badness_reason == EPROTO && RB(s).wire_len == 4 && !HDR_OK(RX_HDR(s))))
+__CPROVER_ensures((!XF(s)->conn.bad && RB(s).wire_len >= 4) ==> (HDR_OK(RX_HDR(s)) && RB(s).wire_len - 4 <= RX_HDR(s)))
+/* PO[C01,C07] buffer_msg.rv: 1 <=> exactly one complete, legal frame is buffered */
+__CPROVER_ensures(__CPROVER_return_value == 1 ==> (!XF(s)->conn.bad && RB(s).wire_len >= 4 && HDR_OK(RX_HDR(s)) && RB(s).wire_len == 4 + RX_HDR(s)))
+__CPROVER_ensures(__CPROVER_return_value == 0 ==> xv_rx_eof)
+__CPROVER_ensures((__CPROVER_return_value == -1 && !XF(s)->conn.bad) ==> (xv_errno > 0 && (RB(s).wire_len < 4 || RB(s).wire_len - 4 < RX_HDR(s)) && \
+                                                     (xv_errno != EAGAIN ==> xv_lower_dead)))
+/* PO[C17] buffer_msg.cnt */
+__CPROVER_ensures(__CPROVER_return_value == 1 \
+        ? (CN(s, from_lower_msgs) == __CPROVER_old(CN(s, from_lower_msgs)) + 1 && CN(s, from_lower_bytes) == __CPROVER_old(CN(s, from_lower_bytes)) + (int64_t)RB(s).wire_len - 4) \
+        : (CN(s, from_lower_msgs) == __CPROVER_old(CN(s, from_lower_msgs)) && CN(s, from_lower_bytes) == __CPROVER_old(CN(s, from_lower_bytes))))
+;
+
+/* ---- tcp_receive / tls_receive */
+#define TR_R (__CPROVER_old(xv_rx_off) - (long)__CPROVER_old(RB(s).wire_len))   /* stream offset of the frame being assembled (== xv_hR) */
+#define TR_H ((uint32_t)(xv_rx_off - TR_R - 4))                                  /* its announced payload length                */
+#define TR_BUFSZ(c) ((c) == 0 ? 1 : (c) > MBUF_MSG_MAX ? MBUF_MSG_MAX : (c))
+static int XFN(receive)(struct xcm_socket *__restrict s, void *__restrict buf, size_t capacity)
+__CPROVER_requires(__CPROVER_is_fresh(s, XF_SIZE))
+__CPROVER_requires(CNT_RANGE(s) && GHOST_RANGE && XF_WHOLE_TX(s) && XF_WHOLE_RX(s))
+__CPROVER_requires(__CPROVER_is_fresh(buf, TR_BUFSZ(capacity)))
+__CPROVER_requires(XF(s)->conn.bad ==> XF(s)->conn.badness_reason > 0)
+__CPROVER_assigns(SENT(s), SB(s).wire_len, CN(s, to_lower_bytes), CN(s, to_lower_msgs), LOWER_SEND_ASSIGNS)
+__CPROVER_assigns(RB(s).wire_len, RB(s).wire_capacity, RB(s).wire_data, xv_rx_off, xv_rx_eof)
+__CPROVER_assigns(RB(s).wire_capacity > 0: __CPROVER_object_whole(RB(s).wire_data))
+__CPROVER_assigns(XF(s)->conn.bad, XF(s)->conn.badness_reason, CN(s, from_lower_bytes), CN(s, from_lower_msgs), CN(s, to_app_bytes), CN(s, to_app_msgs))
+__CPROVER_assigns(__CPROVER_object_whole(buf))
+__CPROVER_frees(RB(s).wire_data)
+/* PO[C02,C07] receive.bounds: never more than capacity, never more than the maximum message size */
+__CPROVER_ensures(__CPROVER_return_value >= -1 && (__CPROVER_return_value > 0 ==> ((size_t)__CPROVER_return_value <= capacity && __CPROVER_return_value <= MBUF_MSG_MAX)))
+__CPROVER_ensures(xv_rx_off >= __CPROVER_old(xv_rx_off) && xv_rx_off <= __CPROVER_old(xv_rx_off) + (long)MBUF_WIRE_MAX)
+__CPROVER_ensures(CNT_RANGE_OUT(s) && MBUF_SHAPE(RB(s)) && MBUF_SHAPE(SB(s)) && TX_SHAPE(s) && TX_CNT(s) && LOWER_DEAD_MONOTONE)
+/* PO[C07] receive.one_frame_buffered: at most one maximum-size frame is ever buffered */
+__CPROVER_ensures(RB(s).wire_capacity <= MBUF_WIRE_MAX)
+/* PO[C01,C06,C07] receive.partial_kept: nothing delivered => a partial frame stays buffered, byte-exact, never handed out */
+__CPROVER_ensures((__CPROVER_return_value <= 0 && !XF(s)->conn.bad) ==> (RX_SHAPE(s) && RX_LINK(s) && RX_CNT(s) && RX_GROWTH(s)))
+/* PO[C01,C07] receive.frame: rv > 0 => exactly one frame was consumed: header BE32(H) at stream [R,R+4), 1 <= H <= max,
+ * rv == min(H, capacity), buf[i] == stream[R+4+i], the next frame starts right behind this one */
+__CPROVER_ensures(__CPROVER_return_value > 0 ==> (RB(s).wire_len == 0 && xv_rx_off >= TR_R + 5 && HDR_OK(TR_H) && \
+        (size_t)__CPROVER_return_value == (TR_H <= capacity ? TR_H : capacity)))
+__CPROVER_ensures((__CPROVER_return_value > 0 && xv_k >= TR_R && xv_k < TR_R + 4) ==> \
+        (uint8_t)((TR_H >> (8 * (3 - (xv_k - TR_R)))) & 0xff) == xv_rx_k)
+__CPROVER_ensures((__CPROVER_return_value > 0 && __CPROVER_old(RB(s).wire_len) >= 4) ==> TR_H == RX_HDR_OLD(s))
+__CPROVER_ensures((__CPROVER_return_value > 0 && xv_k >= TR_R + 4 && xv_k < TR_R + 4 + (long)__CPROVER_return_value) ==> \
+        XV_U8(buf)[xv_k - TR_R - 4] == xv_rx_k)
+/* PO[C07,C06] receive.no_fabricated_eof: 0 only at end of stream (or when the pending flush found the connection closed) */
+__CPROVER_ensures(__CPROVER_return_value == 0 ==> (xv_rx_eof || (xv_lower_dead && xv_errno == EPIPE)))
+/* PO[C07] receive.illegal_length: a header announcing 0 or more than the maximum => EPROTO, sticky */
+__CPROVER_ensures((!__CPROVER_old(XF(s)->conn.bad) && XF(s)->conn.bad) ==> (__CPROVER_return_value == -1 && xv_errno == EPROTO && XF(s)->conn.badness_reason == EPROTO && \
+        RB(s).wire_len == 4 && !HDR_OK(RX_HDR(s)) && xv_rx_off == TR_R + 4))
+/* PO[C06,C07] receive.bad_sticky */
+__CPROVER_ensures(__CPROVER_old(XF(s)->conn.bad) ==> (XF(s)->conn.bad && __CPROVER_return_value == -1 && xv_errno == __CPROVER_old(XF(s)->conn.badness_reason) && \
+        XF(s)->conn.badness_reason == __CPROVER_old(XF(s)->conn.badness_reason) && xv_rx_off == __CPROVER_old(xv_rx_off)))
+/* PO[C06] receive.errno_passthrough: a failure of the connection is reported with the lower layer's errno */
+__CPROVER_ensures((__CPROVER_return_value == -1 && xv_errno != EAGAIN && !XF(s)->conn.bad) ==> xv_lower_dead)
+/* PO[C17] receive.cnt: delivery counts the bytes really copied; from_lower counts the whole frame */
+__CPROVER_ensures(__CPROVER_return_value > 0 \
+        ? (CN(s, to_app_msgs) == __CPROVER_old(CN(s, to_app_msgs)) + 1 && CN(s, to_app_bytes) == __CPROVER_old(CN(s, to_app_bytes)) + __CPROVER_return_value && \
+           CN(s, from_lower_msgs) == __CPROVER_old(CN(s, from_lower_msgs)) + 1 && CN(s, from_lower_bytes) == __CPROVER_old(CN(s, from_lower_bytes)) + (int64_t)TR_H) \
+        : (CN(s, to_app_msgs) == __CPROVER_old(CN(s, to_app_msgs)) && CN(s, to_app_bytes) == __CPROVER_old(CN(s, to_app_bytes)) && \
+           CN(s, from_lower_msgs) == __CPROVER_old(CN(s, from_lower_msgs)) && CN(s, from_lower_bytes) == __CPROVER_old(CN(s, from_lower_bytes))))
+__CPROVER_ensures(CN(s, to_lower_msgs) >= __CPROVER_old(CN(s, to_lower_msgs)) && CN(s, to_lower_bytes) >= __CPROVER_old(CN(s, to_lower_bytes)))
+;
+
+/* ---- tcp_finish / tls_finish */
+static int XFN(finish)(struct xcm_socket *s)
+__CPROVER_requires(__CPROVER_is_fresh(s, XF_SIZE) && s->type == xcm_socket_type_conn)
+__CPROVER_requires(CNT_RANGE(s) && GHOST_RANGE && XF_WHOLE_TX(s))
+__CPROVER_requires(XF(s)->conn.bad ==> XF(s)->conn.badness_reason > 0)
+__CPROVER_assigns(SENT(s), SB(s).wire_len, CN(s, to_lower_bytes), CN(s, to_lower_msgs), LOWER_SEND_ASSIGNS)
+__CPROVER_ensures(__CPROVER_return_value == 0 || (__CPROVER_return_value == -1 && xv_errno > 0))
+__CPROVER_ensures(CNT_RANGE_OUT(s) && TX_SHAPE(s) && TX_CNT(s) && LOWER_DEAD_MONOTONE)
+/* PO[C01,C03] finish.flushed: success => no accepted message is still held back */
+__CPROVER_ensures(__CPROVER_return_value == 0 ==> (SB(s).wire_len == 0 && !xv_lower_dead))
+/* PO[C06] finish.bad_sticky / errno passthrough */
+__CPROVER_ensures(__CPROVER_old(XF(s)->conn.bad) ==> (__CPROVER_return_value == -1 && xv_errno == XF(s)->conn.badness_reason && xv_tx_off == __CPROVER_old(xv_tx_off)))
+__CPROVER_ensures((__CPROVER_return_value == -1 && xv_errno != EAGAIN && !XF(s)->conn.bad) ==> xv_lower_dead)
+;
+
+/* ---- tcp_update / tls_update: a pending outbound frame forces SENDABLE interest on the layer below (C04); nothing
+ * pending => the lower condition is exactly the application's (C16) */
+static void XFN(update)(struct xcm_socket *s)
+__CPROVER_requires(__CPROVER_is_fresh(s, XF_SIZE) && s->type == xcm_socket_type_conn)
+__CPROVER_requires(__CPROVER_is_fresh(XF_LOWER(s), sizeof(struct xcm_socket)))
+__CPROVER_requires(MBUF_SHAPE(SB(s)) && MBUF_MEM(SB(s)) && TX_SHAPE(s))
+__CPROVER_assigns(XF_LOWER(s)->condition, xv_lower_updated_with, xv_lower_updated)
+/* PO[C04] update.pending_frame_wants_sendable */
+__CPROVER_ensures(xv_lower_updated && (SB(s).wire_len != 0 ==> xv_lower_updated_with == (s->condition | XCM_SO_SENDABLE)))
+/* PO[C16] update.exact_when_idle */
+__CPROVER_ensures(SB(s).wire_len == 0 ==> xv_lower_updated_with == s->condition)
+;
+
+#include "contracts/end.h"
 #endif
